@@ -6,11 +6,11 @@ from checks import ddcommon
 
 META = {
     "title": "set_var_order: requested order, minimal swaps, functions preserved",
-    "technique": "Rocq proofs about Gallina models of sort_order (permutation, respects the request, minimal number of inversions), bubble sort (adjacent out-of-order swaps only, sorts), the concurrent swap scheduler's no-overlap invariant, and of level_swap/level_down on node tables (BDD, MTBDD, BCDD and ZBDD kinds; the BCDD model handles complement tags as the rules do, the ZBDD model the zero-suppression rule, cofactor_skipped = Empty and the tautology chain dropped before / rebuilt after the reordering: loop invariant -> well-formedness, handles and other levels untouched, function of every surviving edge over the variables unchanged; composition set_var_order_model = sort_order + bubble_sort + one level_swap per reported index); correspondence: the extracted level_swap / set_var_order_model are replayed on snapshots of real managers before every level_down / set_var_order and the manager's table afterwards must be isomorphic to the model's (identity on surviving ids, bijection on created nodes); every source/target order of 3 and 4 variables with all (sampled) functions alive, checked by the extracted interpreters on snapshots before/after",
+    "technique": "Rocq proofs about Gallina models of sort_order (permutation, respects the request, minimal number of inversions), bubble sort (adjacent out-of-order swaps only, sorts), the concurrent swap scheduler's no-overlap invariant, and of level_swap/level_down on node tables (BDD, MTBDD, BCDD, ZBDD and TDD kinds; the TDD model has ternary nodes; the BCDD model handles complement tags as the rules do, the ZBDD model the zero-suppression rule, cofactor_skipped = Empty and the tautology chain dropped before / rebuilt after the reordering: loop invariant -> well-formedness, handles and other levels untouched, function of every surviving edge over the variables unchanged; composition set_var_order_model = sort_order + bubble_sort + one level_swap per reported index); correspondence: the extracted level_swap / set_var_order_model are replayed on snapshots of real managers before every level_down / set_var_order and the manager's table afterwards must be isomorphic to the model's (identity on surviving ids, bijection on created nodes); every source/target order of 3 and 4 variables with all (sampled) functions alive, checked by the extracted interpreters on snapshots before/after",
     "category": "proof",
     "design_ref": "DESIGN.md section 5, C08; notes/C08b.md",
-    "level_text": "Theorems (coq/Props/C08.v, 86 incl. the history-level ones, all closed under the global context). Order computation: sort_order is a permutation, respects the request, minimises inversions, keeps unnamed levels in order; bubble sort performs only adjacent strictly-out-of-order swaps and sorts; the concurrent scheduler never runs two swaps sharing a level. Swap itself, for the BDD and MTBDD kinds (binary nodes, no complement tags, rule 'children equal') and every well-formed table s and adjacent levels i, i+1 (Mgr/LevelSwap*.v): level_swap s i is well-formed again (C08_level_swap_wf), the maps are the old ones with the two levels exchanged (C08_level_swap_maps), the handle list is unchanged and every handle's node keeps its id (C08_level_swap_handles), nodes of the other levels keep id/level/children and nothing appears there (C08_level_swap_untouched), only unreferenced nodes of the old lower level disappear (C08_level_swap_removed_only), every edge stored before and after denotes the same Boolean function of the VARIABLES (C08_level_swap_sem_vars; C08_level_swap_handles_vars for handles). Composition (C08_set_var_order_model_correct/_respects/_canonical): sort_order + bubble_sort + one level swap per reported index yields a well-formed, canonical table in which every handle denotes the same function, every variable sits on the level sort_order assigns and the named variables are in the requested relative order, with inv(target) swaps. The same fourteen statements are proved for the BCDD kind (C08_bcdd_*: Mgr/LevelSwapC*.v; cofactors carry the tag of the incoming edge, reduce normalises the then-edge to untagged and moves the tag onto the resulting edge, interpreter semc). Tie to the code: harness op LEVELDOWN i = oxidd_reorder::level_down under Manager::reorder; on BDD, MTBDD and BCDD managers the driver replays every single swap (all 256 functions of 3 variables alive x both positions, with and without dead nodes, subsets where nodes lose their last reference, chains of swaps on random 4..6-variable tables; MTBDD: all 81 functions of 2 variables over 3 values, random 3..5-variable tables) and every set_var_order/set_var_order_seq on tables without empty levels (up to 1200 nodes) on the extracted model and demands a table isomorphic to the manager's (same maps, same handle edges, identity on surviving node ids, bijection on created nodes, same levels/stored levels/children). ZBDD (C08_zbdd_*, 30 theorems, Mgr/LevelSwapZ*.v; ZbddOK = well-formed zero-suppressed table with the terminals Empty and Base): level_swap_zc (the loop with cofactor_skipped hi = Empty and reduce hi = Empty -> lo, the rewritten node not passed through reduce as in the code) keeps ZbddOK, exchanges the maps, keeps handles and their ids, leaves the other levels alone, removes only unreferenced old-lower nodes, and every reference stored before and after keeps its Boolean view (semz; also the edges inside nodes, seen from any level outside the swapped pair), its Boolean function of the VARIABLES (C08_zbdd_swap_core_sem_vars) and its FAMILY of sets of variables (C08_zbdd_swap_core_fam_vars: every set of variables is a member before iff afterwards; C08_zbdd_fam_member_is_set: every listed member is such a set; _fam_image); pre_reorder_mut = zchain_drop removes only chain-shaped nodes nothing else refers to (C08_zbdd_chain_drop), post_reorder_mut = zchain_rebuild only adds nodes and completes the chain taut(l) = all subsets of the levels l.. (C08_zbdd_chain_rebuild); level_swap_z = reorder(level_down) (drop, swap, rebuild): ZbddOK, maps, handles, function and family of every edge that is stored throughout, chain complete (C08_zbdd_level_swap_*); set_var_order_model_z = one bracket around the bubble-sort swaps (nothing if already sorted): C08_zbdd_set_var_order_model_correct/_respects/_canonical/_fam/_chain as for BDDs. Tie: on ZBDD managers every LEVELDOWN and every set_var_order between two snapshots (the levels are never empty when set_var_order tests them, so always applicable; <= 1200 nodes) is replayed step by step on the extracted zchain_drop / level_swap_zc / zchain_rebuild, cross-checked with the extracted level_swap_z / set_var_order_model_z, and the manager's table must be isomorphic (identity on the ids stored throughout, bijection on created nodes incl. the rebuilt chain paired level by level). For TDD (through C11's runs), and for ZBDD in addition, lifting the manager before and after every set_var_order / level_down of the explored space (all 6 source orders x all 12 total/partial targets for 3 variables with all 256 functions alive, sampled for 4 variables, random orders on 5..7 variables, chains mixed with operations and gc; sequential and pool variants) and evaluating the extracted checkers: requested relative order holds, number of adjacent swaps (inversions w.r.t. the previous order) equals the optimum computed independently, var/level maps inverse, value tables unchanged, wf_full_b (reported under C08 after a reordering), rc audit, re-derived functions equal the old handles.",
-    "level_note": "Trusted: Coq kernel, extraction, OCaml driver (incl. its isomorphism test ocaml/lswap.ml and its independent optimum computation for the swap count), Rust harness. Proved for the BDD, MTBDD (binary nodes, no complement tags), BCDD (complement edges) and ZBDD (zero-suppression, tautology chain) kinds; TDD (ternary) level swaps are checked on the real code by snapshots, not proved. ZBDD: an edge counts as preserved if it is stored after the chain drop and after the swap (a dropped chain node's id may be re-used by a created node); handles always are. zchain_drop finds the chain structurally in the snapshot (bottom-up from Base, as post_reorder_mut built it) and acts only on a complete chain -- the driver reports a snapshot without a complete chain; the search succeeds on every table zchain_rebuild produces (C08_zbdd_chain_rebuild_found), so consecutive reorderings of the model always drop the real chain. Modelled: level_down on ADJACENT levels with the level numbers updated after each swap; not modelled: the lazy renumbering (to_pre) and the empty-level shortcut of set_var_order_common (non-adjacent swaps of non-empty levels followed by a linear pass for the empty ones) -- reorderings of tables with an empty level are therefore compared by the snapshot audits only; reference counters inside level_swap are not modelled (audited exactly on every snapshot by C05's checker); the iteration order of the unique table is not modelled (result identical up to the ids of created nodes, which is what the isomorphism allows). The segment tree is tied to the naive model only by correspondence. Out-of-memory inside level_swap aborts the process by documented design and is outside the recoverable set. The concurrent bubble sort needs >= 65536 nodes and several workers: exercised in the thorough tier only, and not replayed on the model (no fixed swap order).",
+    "level_text": "Theorems (coq/Props/C08.v, 101 incl. the history-level ones, all closed under the global context). Order computation: sort_order is a permutation, respects the request, minimises inversions, keeps unnamed levels in order; bubble sort performs only adjacent strictly-out-of-order swaps and sorts; the concurrent scheduler never runs two swaps sharing a level. Swap itself, for the BDD and MTBDD kinds (binary nodes, no complement tags, rule 'children equal') and every well-formed table s and adjacent levels i, i+1 (Mgr/LevelSwap*.v): level_swap s i is well-formed again (C08_level_swap_wf), the maps are the old ones with the two levels exchanged (C08_level_swap_maps), the handle list is unchanged and every handle's node keeps its id (C08_level_swap_handles), nodes of the other levels keep id/level/children and nothing appears there (C08_level_swap_untouched), only unreferenced nodes of the old lower level disappear (C08_level_swap_removed_only), every edge stored before and after denotes the same Boolean function of the VARIABLES (C08_level_swap_sem_vars; C08_level_swap_handles_vars for handles). Composition (C08_set_var_order_model_correct/_respects/_canonical): sort_order + bubble_sort + one level swap per reported index yields a well-formed, canonical table in which every handle denotes the same function, every variable sits on the level sort_order assigns and the named variables are in the requested relative order, with inv(target) swaps. The same fourteen statements are proved for the BCDD kind (C08_bcdd_*: Mgr/LevelSwapC*.v; cofactors carry the tag of the incoming edge, reduce normalises the then-edge to untagged and moves the tag onto the resulting edge, interpreter semc). Tie to the code: harness op LEVELDOWN i = oxidd_reorder::level_down under Manager::reorder; on BDD, MTBDD and BCDD managers the driver replays every single swap (all 256 functions of 3 variables alive x both positions, with and without dead nodes, subsets where nodes lose their last reference, chains of swaps on random 4..6-variable tables; MTBDD: all 81 functions of 2 variables over 3 values, random 3..5-variable tables) and every set_var_order/set_var_order_seq on tables without empty levels (up to 1200 nodes) on the extracted model and demands a table isomorphic to the manager's (same maps, same handle edges, identity on surviving node ids, bijection on created nodes, same levels/stored levels/children). ZBDD (C08_zbdd_*, 30 theorems, Mgr/LevelSwapZ*.v; ZbddOK = well-formed zero-suppressed table with the terminals Empty and Base): level_swap_zc (the loop with cofactor_skipped hi = Empty and reduce hi = Empty -> lo, the rewritten node not passed through reduce as in the code) keeps ZbddOK, exchanges the maps, keeps handles and their ids, leaves the other levels alone, removes only unreferenced old-lower nodes, and every reference stored before and after keeps its Boolean view (semz; also the edges inside nodes, seen from any level outside the swapped pair), its Boolean function of the VARIABLES (C08_zbdd_swap_core_sem_vars) and its FAMILY of sets of variables (C08_zbdd_swap_core_fam_vars: every set of variables is a member before iff afterwards; C08_zbdd_fam_member_is_set: every listed member is such a set; _fam_image); pre_reorder_mut = zchain_drop removes only chain-shaped nodes nothing else refers to (C08_zbdd_chain_drop), post_reorder_mut = zchain_rebuild only adds nodes and completes the chain taut(l) = all subsets of the levels l.. (C08_zbdd_chain_rebuild); level_swap_z = reorder(level_down) (drop, swap, rebuild): ZbddOK, maps, handles, function and family of every edge that is stored throughout, chain complete (C08_zbdd_level_swap_*); set_var_order_model_z = one bracket around the bubble-sort swaps (nothing if already sorted): C08_zbdd_set_var_order_model_correct/_respects/_canonical/_fam/_chain as for BDDs. Tie: on ZBDD managers every LEVELDOWN and every set_var_order between two snapshots (the levels are never empty when set_var_order tests them, so always applicable; <= 1200 nodes) is replayed step by step on the extracted zchain_drop / level_swap_zc / zchain_rebuild, cross-checked with the extracted level_swap_z / set_var_order_model_z, and the manager's table must be isomorphic (identity on the ids stored throughout, bijection on created nodes incl. the rebuilt chain paired level by level). TDD (C08_tdd_*, 15 theorems, Mgr/LevelSwapT*.v; ternary nodes true/unknown/false, rule 'all three children equal', interpreter semk): level_swap_t (the loop with ARITY = 3: per new child index b the b-th cofactors of the three children go through TDDRules::reduce + lookup/insert) is well-formed again, exchanges the maps, keeps handles and ids, leaves the other levels alone, removes only unreferenced old-lower nodes, and every edge stored before and after denotes the same three-valued function of the VARIABLES under every ternary assignment (C08_tdd_level_swap_sem_vars); C08_tdd_swaps_fold / _set_var_order_model_correct / _respects / _canonical as for BDDs. Tie: harness kind tdd of h_dd (functions built from variables and the three constants by random three-valued operators incl. ite; LEVELDOWN, ORDER/ORDERSEQ, snapshots): every swap and every reordering on a table without empty levels is replayed on the extracted level_swap_t / set_var_order_model_t with the same isomorphism test; value tables are taken over all 3^n ternary assignments (persistence and canonicity audits) and T3EVAL compares the implementation's eval on all 3^n assignments with the extracted interpreter on the snapshot. For all kinds in addition: lifting the manager before and after every set_var_order / level_down of the explored space (all 6 source orders x all 12 total/partial targets for 3 variables with all 256 functions alive, sampled for 4 variables, random orders on 5..7 variables, chains mixed with operations and gc; sequential and pool variants) and evaluating the extracted checkers: requested relative order holds, number of adjacent swaps (inversions w.r.t. the previous order) equals the optimum computed independently, var/level maps inverse, value tables unchanged, wf_full_b (reported under C08 after a reordering), rc audit, re-derived functions equal the old handles.",
+    "level_note": "Trusted: Coq kernel, extraction, OCaml driver (incl. its isomorphism test ocaml/lswap.ml and its independent optimum computation for the swap count), Rust harness. Proved for the BDD, MTBDD (binary nodes, no complement tags), BCDD (complement edges), ZBDD (zero-suppression, tautology chain) and TDD kinds; TDD (ternary nodes; no manager-owned nodes, reorder adds nothing around the closure). ZBDD: an edge counts as preserved if it is stored after the chain drop and after the swap (a dropped chain node's id may be re-used by a created node); handles always are. zchain_drop finds the chain structurally in the snapshot (bottom-up from Base, as post_reorder_mut built it) and acts only on a complete chain -- the driver reports a snapshot without a complete chain; the search succeeds on every table zchain_rebuild produces (C08_zbdd_chain_rebuild_found), so consecutive reorderings of the model always drop the real chain. Modelled: level_down on ADJACENT levels with the level numbers updated after each swap; not modelled: the lazy renumbering (to_pre) and the empty-level shortcut of set_var_order_common (non-adjacent swaps of non-empty levels followed by a linear pass for the empty ones) -- reorderings of tables with an empty level are therefore compared by the snapshot audits only; reference counters inside level_swap are not modelled (audited exactly on every snapshot by C05's checker); the iteration order of the unique table is not modelled (result identical up to the ids of created nodes, which is what the isomorphism allows). The segment tree is tied to the naive model only by correspondence. Out-of-memory inside level_swap aborts the process by documented design and is outside the recoverable set. The concurrent bubble sort needs >= 65536 nodes and several workers: exercised in the thorough tier only, and not replayed on the model (no fixed swap order).",
 }
 ALLOWED_AXIOMS = ()
 
@@ -245,7 +245,7 @@ def run(ctx):
     # every fourth case also on the debug-profile harness (debug assertions of level_swap etc.)
     ddcommon.run_dd(
         ctx, ["C08"], cases, debug_cases=cases[::4] if ctx.tier != "thorough" else cases[::2],
-        rule="concurrent bubble sort: per kind (bdd, bcdd) 20 (thorough 66) set_var_order calls on a manager of its own holding a 2^19-node function with 2/4/8 workers (random partial orders over the top 6/8/12 variables -- deeper levels of that function hold up to 2^18 nodes and a swap there takes seconds --, block rotations, reversals): resulting order, minimal swap count, 64 sampled evaluations; a quarter of the cases (half in thorough) and the corpus are run a second time on a debug-profile build of /repo (debug assertions, overflow checks); per kind (bdd, bcdd, zbdd): single level swaps (LEVELDOWN i with a snapshot before and after: all 256 functions of 3 variables alive x both positions x with/without dead nodes, chains of 6 swaps from sampled source orders, 1..11 sampled functions alive so that nodes lose their last reference, chains of 1..9 swaps on random tables of 4..6 variables; on bdd every swap is replayed on the extracted level_swap, on bcdd on the extracted level_swap_c, on zbdd on the extracted zchain_drop / level_swap_zc / zchain_rebuild, and the tables must be isomorphic); mtbdd: the 81 functions of 2 variables over 3 sampled values and random tables of 3..5 variables, swaps and reorderings replayed likewise; every set_var_order on a bdd/mtbdd/bcdd table without empty levels and on every zbdd table (<= 1200 nodes) is replayed on the extracted set_var_order_model(_c/_z) likewise; for 3 variables every source order (2 in quick) x all 12 total and partial target orders with all 256 functions alive, each followed by re-derivation, optional gc and the way back; 4 variables with 48 sampled functions and sampled targets; 5..7 variables with random functions and orders; random histories mixing reorderings with operations and gc; set_var_order and set_var_order_seq, 1/2/4/8 workers. non-trivial = case with >= 3 ops",
+        rule="concurrent bubble sort: per kind (bdd, bcdd) 20 (thorough 66) set_var_order calls on a manager of its own holding a 2^19-node function with 2/4/8 workers (random partial orders over the top 6/8/12 variables -- deeper levels of that function hold up to 2^18 nodes and a swap there takes seconds --, block rotations, reversals): resulting order, minimal swap count, 64 sampled evaluations; a quarter of the cases (half in thorough) and the corpus are run a second time on a debug-profile build of /repo (debug assertions, overflow checks); per kind (bdd, bcdd, zbdd): single level swaps (LEVELDOWN i with a snapshot before and after: all 256 functions of 3 variables alive x both positions x with/without dead nodes, chains of 6 swaps from sampled source orders, 1..11 sampled functions alive so that nodes lose their last reference, chains of 1..9 swaps on random tables of 4..6 variables; on bdd every swap is replayed on the extracted level_swap, on bcdd on the extracted level_swap_c, on zbdd on the extracted zchain_drop / level_swap_zc / zchain_rebuild, and the tables must be isomorphic); tdd: 36 (thorough 160) cases of 2..5 variables with 2..24 random three-valued operator applications (and/or/xor/equiv/nand/nor/imp/imp_strict/not/ite over variables and the constants f/u/t), a third of the results and sometimes the variable handles dropped, 1..7 swaps and 0..3 reorderings each replayed on the extracted ternary model, up to 5 T3EVAL; mtbdd: the 81 functions of 2 variables over 3 sampled values and random tables of 3..5 variables, swaps and reorderings replayed likewise; every set_var_order on a bdd/mtbdd/bcdd table without empty levels and on every zbdd table (<= 1200 nodes) is replayed on the extracted set_var_order_model(_c/_z) likewise; for 3 variables every source order (2 in quick) x all 12 total and partial target orders with all 256 functions alive, each followed by re-derivation, optional gc and the way back; 4 variables with 48 sampled functions and sampled targets; 5..7 variables with random functions and orders; random histories mixing reorderings with operations and gc; set_var_order and set_var_order_seq, 1/2/4/8 workers. non-trivial = case with >= 3 ops",
         allowed_axioms=ALLOWED_AXIOMS)
 
 
